@@ -268,6 +268,12 @@ def gcc_audit(ctx, tab, cases):
     """The same objects through gcc; bytes dumped at run time, pointers resolved symbolically.  A disagreement
     between gcc and the spec is a spec defect (machinery error)."""
     cases = [c for c in cases if not c["agg"]]
+    chunks = [(k, cases[k:k + 1500]) for k in range(0, len(cases), 1500)]
+    vlib.pmap(lambda kc: gcc_audit_chunk(ctx, tab, kc[1], "audit%d" % kc[0]), chunks, workers=8)
+    ctx.cov["gcc_audited_cases"] = ctx.cov.get("gcc_audited_cases", 0) + len(cases)
+
+
+def gcc_audit_chunk(ctx, tab, cases, tag):
     lines = ["#include <stdio.h>\n#include <string.h>\n", prelude(tab),
              "void fn(void) {}\n",
              "static void dump(int id, const unsigned char *p, unsigned long size, unsigned long align, const int *po) {\n"
@@ -295,8 +301,8 @@ def gcc_audit(ctx, tab, cases):
         main.append("  dump(%d, (const unsigned char *)&x%d, sizeof x%d, __alignof__(x%d), (const int[]){%s-1});\n"
                     % (i, i, i, i, "".join("%d, " % o for o in po)))
     main.append("  return 0;\n}\n")
-    src = ctx.path("audit.c")
-    exe = ctx.path("audit")
+    src = ctx.path(tag + ".c")
+    exe = ctx.path(tag)
     with open(src, "w") as f:
         f.write("".join(lines) + "".join(main))
     p = subprocess.run(["gcc", "-std=gnu11", "-w", "-O0", "-o", exe, src], stdout=subprocess.PIPE, stderr=subprocess.STDOUT, text=True)
@@ -321,7 +327,6 @@ def gcc_audit(ctx, tab, cases):
             raise vlib.MachineryError("SPEC-AUDIT: gcc disagrees with Init.tla on `%s`: %s (gcc bytes %s rel %s; spec bytes %s)"
                                       % (render_decl(tab, c, "x"), why, img, sorted(rel), c["img"]))
         n += 1
-    ctx.cov["gcc_audited_cases"] = ctx.cov.get("gcc_audited_cases", 0) + n
 
 
 def audit_types(ctx, tab):
@@ -415,7 +420,15 @@ def emit_cases(ctx, cfg, **kw):
     return r, out
 
 
+def phase(ctx, name, t0):
+    import time
+    ctx.cov.setdefault("phase_wall_s", {})[name] = round(time.time() - t0, 1)
+    return time.time()
+
+
 def run(ctx):
+    import time
+    t0 = time.time()
     ctx.cov["rule"] = ("TLC enumerates every initializer token sequence (value, string, {, }, {}, .member, [index]) up to MaxTok "
                        "tokens that begins a valid initializer for each of 14 declared types; every complete valid initializer is "
                        "one case: rendered as a file-scope object, compiled by cproc-qbe, data definition decoded and compared "
@@ -427,6 +440,7 @@ def run(ctx):
     ctx.tlc_must_pass("Init", "MC_Init_refine_%s.cfg" % tier, workers=8 if ctx.quick else 12,
                       timeout=1500, heap="3g" if ctx.quick else "8g")
     ctx.tlc_must_pass("Init", "MC_Init_agg.cfg", workers=4, timeout=900)
+    t0 = phase(ctx, "tlc_refine", t0)
     # (b) behaviours for flow A, deviations on
     r, cases = emit_cases(ctx, "MC_Init_emit_%s.cfg" % tier, workers=8 if ctx.quick else 12, timeout=1500,
                           heap="3g" if ctx.quick else "8g")
@@ -440,14 +454,21 @@ def run(ctx):
     if missing:
         ctx.cov["untaken_actions"] = sorted(missing)
         raise vlib.MachineryError("vacuity guard: actions never taken on a valid initializer: %s" % sorted(missing))
+    ra, agg_cases = emit_cases(ctx, "MC_Init_emit_agg.cfg", workers=4, timeout=900)
+    agg_cases = [c for c in agg_cases if c["agg"]]       # struct-valued initializer expressions: automatic objects only
+    t0 = phase(ctx, "tlc_emit", t0)
     objdir = private_build(ctx, "plain")
     gcc_audit(ctx, tab, cases)
+    t0 = phase(ctx, "gcc_audit_static", t0)
     run_static(ctx, tab, cases, objdir)
+    t0 = phase(ctx, "static_replay", t0)
     for c in cases[len(cases) // 3::max(1, len(cases) // 5)][:4]:
         ctx.sample({"source": render_decl(tab, c, "x"), "expected_bytes": c["img"], "expected_rel": sorted(expected_rel(c["rel"]))})
-    run_auto(ctx, tab, cases, objdir)
+    run_auto(ctx, tab, cases + agg_cases, objdir)
+    t0 = phase(ctx, "auto_replay", t0)
     import trace_c07
     trace_c07.run(ctx, tab, cases)
+    t0 = phase(ctx, "trace_validation", t0)
 
 
 def replay(ctx, path):
